@@ -66,7 +66,9 @@ Fixpoint expr_match (ts : list token) (segs : list string) : option (list string
 (* ------------------------------------------------------------------ decoding *)
 
 (** percent-decoding of a captured value; with [keep_slash] an encoded slash (in
-    either hex case) stays as it is.  [None]: not a valid percent-encoding (the
+    either hex case) stays an encoded slash, written in the canonical upper-case
+    spelling "%2F" (RFC 3986 2.1: the two spellings are equivalent; the repair of
+    C03-F7 / C08-F2 normalises to it).  [None]: not a valid percent-encoding (the
     property says nothing about such values). *)
 Fixpoint spec_decode (keep_slash : bool) (s : string) : option string :=
   match s with
@@ -75,7 +77,7 @@ Fixpoint spec_decode (keep_slash : bool) (s : string) : option string :=
     match hexval a, hexval b with
     | Some x, Some y =>
       let c := ascii_of_N (16 * x + y) in
-      option_map (fun d => if keep_slash && Ascii.eqb c "/" then String "%" (String a (String b d))
+      option_map (fun d => if keep_slash && Ascii.eqb c "/" then String "%" (String "2" (String "F" d))
                            else String c d) (spec_decode keep_slash r)
     | _, _ => None
     end
